@@ -41,7 +41,9 @@ calls `p.file.Line(pos)`, which honours `//line` directives (`forkCfg`);
 go1.25.9 calls `p.lineFor(pos)`, the physical line (`stdCfg`).  The two
 configurations are equal when no directive changes a line
 (`Props.lineFor_drift_agree`) and differ otherwise
-(`Props.lineFor_drift_counterexample`).
+(`Props.lineFor_drift_counterexample`).  Other theorems: `callback_transparent`,
+`parseFile2_eq_parseFile`, `callback_once_per_scan`, `comments_filed`,
+`callback_count_partial` / `callback_misses_init_tokens` / `callback_count_counterexample`.
 
 Quirks kept as they are:
 * `ParseFile2` sets `p.callback` AFTER `p.init`, and `p.init` ends with
